@@ -72,6 +72,14 @@ func genC08(t *rapid.T) c08Case {
 				c.Trees = append(c.Trees, c.Trees[0])
 				resized = append(resized, i)
 				continue
+			case 3:
+				// a root in which hardly anything is found: what an extractor found (and what
+				// went wrong for it) in the other roots still decides its status
+				c.Trees = append(c.Trees, memfs.Tree{Nodes: []memfs.Node{
+					{Path: "only", Kind: memfs.KDir},
+					{Path: "only/" + rapid.SampledFrom([]string{"q", "zz.none", "k.txt"}).Draw(t, "lone_file"), Kind: memfs.KFile, Content: "x"},
+				}}.Normalize())
+				continue
 			}
 		}
 		c.Trees = append(c.Trees, genTree(t, treeOpts{MaxNodes: 20, MaxDepth: 3, Gitignore: true, Symlinks: true, Special: false}))
@@ -107,11 +115,16 @@ func genC08(t *rapid.T) c08Case {
 	for i := range c.Exts {
 		c.Exts[i].PkgsMod = rapid.IntRange(1, 3).Draw(t, "pkgs_mod2")
 		c.Exts[i].FindingsMod = rapid.SampledFrom([]int{0, 0, 1, 2}).Draw(t, "findings_mod")
+		c.Exts[i].ExtraLocs = rapid.SampledFrom([]int{0, 0, 1, 2}).Draw(t, "extra_locs")
 		if rapid.Bool().Draw(t, "pred_all") {
 			c.Exts[i].Pred = recext.Pred{Kind: "all"}
 		}
 	}
 	c.ReadDirFile = rapid.Bool().Draw(t, "read_dir_file")
+	if c.MultiRoot && len(c.Exts) > 0 && rapid.Bool().Draw(t, "multi_root_errs") {
+		// an extractor that fails on every second file it is given
+		c.Exts[rapid.IntRange(0, len(c.Exts)-1).Draw(t, "err_ext")].ErrMod = 2
+	}
 	if !c.MultiRoot {
 		k := rapid.IntRange(2, 4).Draw(t, "n_orders")
 		for i := 0; i < k; i++ {
@@ -179,15 +192,21 @@ func findingKeys(out scanOut) []findingKey {
 func checkSorted(out scanOut) error {
 	for i := 1; i < len(out.Packages); i++ {
 		a, b := out.Packages[i-1], out.Packages[i]
-		ka := [3]string{a.Name, a.Version, a.Extractor}
-		kb := [3]string{b.Name, b.Version, b.Extractor}
-		for j := 0; j < 3; j++ {
+		// the last key is the printed form of the package's (sorted) location list
+		ka := [4]string{a.Name, a.Version, a.Extractor, "[" + strings.ReplaceAll(a.Locations, "\x1f", " ") + "]"}
+		kb := [4]string{b.Name, b.Version, b.Extractor, "[" + strings.ReplaceAll(b.Locations, "\x1f", " ") + "]"}
+		for j := 0; j < 4; j++ {
 			if ka[j] < kb[j] {
 				break
 			}
 			if ka[j] > kb[j] {
-				return fmt.Errorf("packages not sorted by (name, version, extractor): %v before %v", a, b)
+				return fmt.Errorf("packages not sorted by (name, version, extractor, locations): %v before %v", a, b)
 			}
+		}
+	}
+	for _, p := range out.Packages {
+		if locs := strings.Split(p.Locations, "\x1f"); !sort.StringsAreSorted(locs) {
+			return fmt.Errorf("locations of package %s@%s are not sorted: %q", p.Name, p.Version, locs)
 		}
 	}
 	for i := 1; i < len(out.Statuses); i++ {
@@ -281,6 +300,8 @@ func propC08(c c08Case) (ev.Outcome, error) {
 	var union []recext.PkgKey
 	var unionFindings []findingKey
 	rootsWithPkgs := 0
+	// per extractor: did some root's scan report a problem, did some root's scan find something
+	anyErr, found := map[string]bool{}, map[string]bool{}
 	mkRoot := func(i int, tr memfs.Tree) (*scalibrfs.ScanRoot, error) {
 		return &scalibrfs.ScanRoot{FS: memfs.New(tr, memfs.Options{ReadDirFile: c.ReadDirFile}), Path: ""}, nil
 	}
@@ -319,6 +340,17 @@ func propC08(c c08Case) (ev.Outcome, error) {
 		}
 		union = append(union, single.Packages...)
 		unionFindings = append(unionFindings, findingKeys(single)...)
+		for _, st := range single.Statuses {
+			if st.Status != plugin.ScanStatusSucceeded {
+				anyErr[st.Name] = true
+			}
+			if st.Status == plugin.ScanStatusPartiallySucceeded {
+				found[st.Name] = true
+			}
+		}
+		for _, p := range single.Packages {
+			found[p.Extractor] = true
+		}
 		if len(single.Packages) > 0 {
 			rootsWithPkgs++
 		}
@@ -347,6 +379,34 @@ func propC08(c c08Case) (ev.Outcome, error) {
 	}
 	if len(wantF) > 0 {
 		o.Classes = append(o.Classes, "multi_root_extractor_findings")
+	}
+	// statuses: an extractor's status says whether anything went wrong for it in some root and
+	// whether it found anything in some root, i.e. it is what the single-root statuses add up to
+	specOf := map[string]recext.ExtSpec{}
+	for _, e := range c.Exts {
+		specOf[e.Name] = e
+	}
+	for _, st := range multi.Statuses {
+		sp, ok := specOf[st.Name]
+		if !ok {
+			continue
+		}
+		want := plugin.ScanStatusSucceeded
+		switch {
+		case !anyErr[st.Name]:
+		case found[st.Name]:
+			want = plugin.ScanStatusPartiallySucceeded
+		case sp.FindingsMod == 0:
+			want = plugin.ScanStatusFailed
+		default:
+			continue // it may have found findings only, which the single-root statuses do not show
+		}
+		if anyErr[st.Name] {
+			o.Classes = append(o.Classes, "multi_root_extractor_with_errors")
+		}
+		if st.Status != want {
+			return o, fmt.Errorf("scan of %d roots reports status %v for %s; the single-root scans add up to %v (something went wrong in some root: %v, something was found in some root: %v)", len(c.Trees), st.Status, st.Name, want, anyErr[st.Name], found[st.Name])
+		}
 	}
 	ptr := map[*extractor.Package]bool{}
 	for _, p := range multi.Result.Inventory.Packages {
